@@ -14,6 +14,7 @@ func registerIntrinsics(P *Program) {
 	registerBig(P)
 	registerSdkMath(P)
 	registerCoins(P)
+	registerDecCoins(P)
 	registerTime(P)
 	registerMisc(P)
 	registerSDK(P)
